@@ -8,6 +8,8 @@ import (
 	"os"
 	"path/filepath"
 	"sort"
+
+	"github.com/ChrisTrenkamp/xsel"
 )
 
 // Writer collects the three parallel streams of a run: the driver's input, the real
@@ -124,6 +126,32 @@ func GenEnv(r *Rng, d *Dump, userFns bool) Env {
 	sort.Ints(nodes)
 	e.Vars = append(e.Vars, VarBind{"", "v", Value{Kind: "nodes", Nodes: nodes}})
 	e.Vars = append(e.Vars, VarBind{"", "e", Value{Kind: "nodes"}})
+	// a node-set the CALLER assembled: not in document order (first node in document order neither
+	// first nor last when there are three or more) — conversions, comparisons and node functions must
+	// pick the first node in document order whatever the order of the slice (seeded change C04-6);
+	// never used by the generic path generators (varsOf skips it): a bare `$u` is returned as it is
+	var un []int
+	for i := range d.Cursors {
+		if r.Chance(1, 3) {
+			un = append(un, i)
+		}
+	}
+	for i := len(un) - 1; i > 0; i-- {
+		j := r.Intn(i + 1)
+		un[i], un[j] = un[j], un[i]
+	}
+	if len(un) >= 3 {
+		// the minimum into the middle
+		mi := 0
+		for i, x := range un {
+			if x < un[mi] {
+				mi = i
+			}
+		}
+		mid := 1 + r.Intn(len(un)-2)
+		un[mi], un[mid] = un[mid], un[mi]
+	}
+	e.Vars = append(e.Vars, VarBind{"", "u", Value{Kind: "nodes", Nodes: un}})
 	if userFns {
 		e.Fns = append(e.Fns, FnBind{Uri: uriOf(), Local: "const", Kind: "const", Arg: Pick(r, []string{"k", "", "1"})})
 		e.Fns = append(e.Fns, FnBind{Local: "argstr", Kind: "argstr"})
@@ -147,11 +175,37 @@ type EvalCase struct {
 	Start int
 	E     Expr
 	Xpath string
+	Built *xsel.Grammar // when set: executed instead of building Xpath anew
 }
 
 func (w *Writer) Eval(c EvalCase) string {
-	impl := RunExec(c.Doc.Dump, c.Start, c.Xpath, c.Env)
+	var impl string
 	line := fmt.Sprintf("eval %s %s %d %s", c.Doc.Id, c.Env.Sexp(), c.Start, Sexp(c.E))
+	built := c.Built
+	if built == nil {
+		// built ONCE: the forest that is exported below is the forest that is executed
+		func() {
+			defer func() {
+				if r := recover(); r != nil {
+					impl = "panic"
+				}
+			}()
+			g, err := xsel.BuildExpr(c.Xpath)
+			if err != nil {
+				impl = "builderr"
+				return
+			}
+			built = &g
+		}()
+	}
+	if built != nil {
+		// (a compiled expression that is shared with other cases was executed before under other bindings)
+		impl = RunBuilt(c.Doc.Dump, c.Start, built, c.Env)
+		// the parse forest the real evaluator walks: the model's handler walk (Xsel/Walk.lean) runs on it
+		if f := ExportForest(built); f != "-" {
+			line += " " + f
+		}
+	}
 	w.Line(line, impl, map[string]interface{}{"k": "eval", "fam": c.Fam, "doc": c.Doc.Id, "start": c.Start, "xpath": c.Xpath, "env": c.Env})
 	return impl
 }
